@@ -532,6 +532,31 @@ theorem bridge_target_from_original_pt (c : Cfg) (ss : Streams) (p : Pkt) (a : U
     (forward c ss p a b).2.video = (c.videoPts.contains p.pt && c.hasVideo) := by
   simp [forward, targetFor]
 
+/-- **bridge_stamps_mid**: a packet that arrives without a header-extension block and is rewritten by
+a rule carrying an SDES-MID (extension id 1..14, MID of 1..16 bytes; extensions not stripped) leaves
+with exactly the one-element block `stamped id mid`. -/
+theorem bridge_stamps_mid (c : Cfg) (ss : Streams) (p : Pkt) (a : UInt16) (b : UInt32) (r : Rule)
+    (id : UInt8) (mid : Demux.Bytes) (hstrip : c.opts.strip = false) (hext : p.ext = none)
+    (hr : ruleFor c.rules p.pt = some r) (hid : r.midExtId = some id) (hmid : r.mid = some mid)
+    (h1 : 1 ≤ id.toNat) (h2 : id.toNat ≤ 14) (h3 : 1 ≤ mid.length) (h4 : mid.length ≤ 16) :
+    (forward c ss p a b).2.pkt.ext = some (stamped id mid) := by
+  simp [forward, rewrite, stampMid, hstrip, hext, hr, hid, hmid, setExtension_none id mid h1 h2 h3 h4]
+
+/-- **stamped_packet_routes_by_mid** (bridge output → next hop's demux): a receiver whose negotiated
+MID extension id is `id` and that has the (UTF-8) MID registered to listener `l` routes the stamped
+packet to `l` by MID and learns its SSRC — whatever SSRC and payload type the bridge wrote and
+whatever else is registered — provided no RID rule fires first. -/
+theorem stamped_packet_routes_by_mid (reg : Demux.Reg) (id : UInt8) (mid : Demux.Bytes) (l : Demux.Lid) (ssrc pt : Nat)
+    (h1 : 1 ≤ id.toNat) (h2 : id.toNat ≤ 14) (h3 : 1 ≤ mid.length) (h4 : mid.length ≤ 16)
+    (hext : reg.midExt = id.toNat) (hutf : Demux.utf8Valid mid = true)
+    (hreg : Demux.lookup mid reg.byMid = some l)
+    (hrid : Demux.stageRid reg { ssrc, pt, ext := some (stamped id mid) } = none) :
+    Demux.select reg { ssrc, pt, ext := some (stamped id mid) } = some (l, .mid, true) := by
+  have hne : id.toNat ≠ 0 := by omega
+  have hm : Demux.stageMid reg { ssrc, pt, ext := some (stamped id mid) } = some l := by
+    simp [Demux.stageMid, Demux.extOf, hext, hne, get_stamped id mid h1 h2 h3 h4, hutf, hreg]
+  simp [Demux.select, hrid, hm]
+
 /-! non-vacuity: a DTMF-remapping table, two interleaved sources, a wrap of the sequence number and a
 timestamp discontinuity -/
 def demoCfg : Cfg :=
